@@ -109,6 +109,9 @@ def configs_for(tier, which):
                 for m in (1, 2):
                     out.append(dict(kind="two", func=f, n=n, m=m, derived_from_constant=c))
                     out.append(dict(kind="two", func=f, n=m, m=n, derived_from_constant=c))
+            # the constant as a length *ratio* (a fast path for skewed operands): the shortest pair with two elements on the short side
+            out.append(dict(kind="two", func=f, n=2 * c, m=2, derived_from_constant=c))
+            out.append(dict(kind="two", func=f, n=2, m=2 * c, derived_from_constant=c))
     wcap = 2 if tier == "quick" else 3
     for w in WRAP:
         for ln in [None] + list(range(wcap + 1)):
